@@ -32,11 +32,12 @@ def run(rep, tier):
     rule_atomic(rep, ["Textgrid.addTier", "Textgrid.removeTier", "Textgrid.renameTier", "Textgrid.replaceTier"])
 
 
-def lifting(rep, shape):
+def lifting(rep, shape, only=None):
     # --- crop
     def win(at):
         return {"a": at.var("a"), "b": at.var("b")}
-    lifted_table(rep, "L-lifting-crop", "crop", shape, win,
+    if only in (None, "crop"):
+      lifted_table(rep, "L-lifting-crop", "crop", shape, win,
                  [(m, r) for m in ("strict", "lax", "truncated") for r in (True, False) if (m, r) != ("lax", True)],
                  lambda I, tg, sy, mode: I.call_value(I.getattr(tg, "crop"), [sy["a"], sy["b"], mode[0], mode[1]], {}),
                  lambda I, t, sy, mode: I.call_value(I.getattr(t, "crop"), [sy["a"], sy["b"], mode[0], mode[1]], {}),
@@ -48,7 +49,8 @@ def lifting(rep, shape):
         at.rel("m", "<=", "a")
         at.rel("b", "<=", "M")
         return {"a": a, "b": b}
-    lifted_table(rep, "L-lifting-eraseRegion", "eraseRegion", shape, reg, [True, False],
+    if only in (None, "eraseRegion"):
+      lifted_table(rep, "L-lifting-eraseRegion", "eraseRegion", shape, reg, [True, False],
                  lambda I, tg, sy, mode: I.call_value(I.getattr(tg, "eraseRegion"), [sy["a"], sy["b"], mode], {}),
                  lambda I, t, sy, mode: I.call_value(I.getattr(t, "eraseRegion"), [sy["a"], sy["b"], "truncate", mode], {}),
                  "region (a,b) inside span", shared_span=lambda mode: True, check_valid=lambda mode: True)
@@ -60,7 +62,8 @@ def lifting(rep, shape):
         at.rel("m", "<=", "p")
         at.rel("p", "<=", "M")
         return {"p": p, "d": d}
-    lifted_table(rep, "L-lifting-insertSpace", "insertSpace", shape, gap, ["stretch", "split", "no_change", "error"],
+    if only in (None, "insertSpace"):
+      lifted_table(rep, "L-lifting-insertSpace", "insertSpace", shape, gap, ["stretch", "split", "no_change", "error"],
                  lambda I, tg, sy, mode: I.call_value(I.getattr(tg, "insertSpace"), [sy["p"], sy["d"], mode], {}),
                  lambda I, t, sy, mode: I.call_value(I.getattr(t, "insertSpace"), [sy["p"], sy["d"], mode], {}),
                  "insertion point p, duration d>0", shared_span=lambda mode: True, check_valid=lambda mode: True)
@@ -77,7 +80,7 @@ def lifting(rep, shape):
                 else:
                     at.derived_atom("off+%st%d" % (name, i), o + Lin.var("%st%d" % (name, i)))
         return {"off": o}
-    if True:
+    if only in (None, "editTimestamps"):
         lifted_table(rep, "L-lifting-editTimestamps", "editTimestamps", shape, off, ["silence", "warning", "error"],
                      lambda I, tg, sy, mode: I.call_value(I.getattr(tg, "editTimestamps"), [sy["off"], mode], {}),
                      lambda I, t, sy, mode: I.call_value(I.getattr(t, "editTimestamps"), [sy["off"], mode], {}),
